@@ -241,6 +241,8 @@ class Gen:
         kinds = ["name", "receiver", "cc", "ret", "arg_count"]
         if d["args"]:
             kinds.append("arg_type")
+        if self.p.get("slot_mut_kinds"):
+            kinds = [k_ for k_ in kinds if k_ in self.p["slot_mut_kinds"]] or kinds
         k = rng.choice(kinds)
         if k == "name":
             m["name"] = d["name"] + "x"
